@@ -114,10 +114,11 @@ type cfg struct {
 	t      uint32
 	total  uint32
 	grants []gcfg
-	id     string // EnvelopeId of the configuration ("" = derived from secret and context)
-	nilCfg bool   // a nil *EnvelopeConfig is passed
-	empty  bool   // the payload is empty
-	bad    []int  // recipient indexes whose public key is of an unsupported type
+	id     string      // EnvelopeId of the configuration ("" = derived from secret and context)
+	nilCfg bool        // a nil *EnvelopeConfig is passed
+	empty  bool        // the payload is empty
+	bad    []int       // recipient indexes whose public key is of an unsupported type
+	dupOf  map[int]int // recipient slot j holds the SAME public key as slot dupOf[j] (not part of args(): the model is told the closure of the offer)
 }
 
 func (c cfg) args() string {
@@ -590,6 +591,14 @@ func (e *engine) buildReal(c cfg, ctx string, payload []byte) *built {
 	}
 	for _, i := range c.bad {
 		pubs[i] = e.badPub
+	}
+	if len(c.dupOf) > 0 {
+		ks := append([]*key(nil), b.keys...)
+		for j, i := range c.dupOf {
+			pubs[j] = e.keys[i].pub
+			ks[j] = e.keys[i]
+		}
+		b.keys = ks
 	}
 	if p := lib.Recover(func() string {
 		b.env, b.err = envelope.BuildEnvelope(rndReader{e.rng}, ctx, payload, pubs, c.proto())
@@ -1313,11 +1322,79 @@ func (e *engine) decodeCase(wire []byte, gen string) {
 
 // ---- properties ----
 
-var c16Branches = []string{"plan.ok", "plan.ok.empty-grant", "plan.err.invalidThreshold", "plan.err.invalidKeypairIndex",
+var c16Branches = []string{"run.repeated-recipient", "plan.ok", "plan.ok.empty-grant", "plan.err.invalidThreshold", "plan.err.invalidKeypairIndex",
 	"run.opened", "run.opened.exact", "run.locked", "wire.opened", "wire.locked",
 	"scalar.ok", "scalar.err", "polyeval", "recover.ok", "recover.err", "recover.panic", "encctx", "kdctx", "encinner", "inner.ok", "inner.err",
 	"id.auto", "id.configured", "id.fresh", "offers.all8", "gen.large-share-count", "gen.unsupported-privkey",
 	"plan.err.emptyPayload", "plan.err.noGrants", "plan.err.encrypt"}
+
+// repeatedRecipients: the same public key occupies two recipient slots (a recipient listed twice).
+// Offering that key's private half reaches the grants of BOTH slots: the model is asked with the
+// closure of the offer under "same key", the real UnlockEnvelope gets each distinct private key once.
+func (e *engine) repeatedRecipients(n int) {
+	fixed := []cfg{
+		{nkeys: 2, t: 1, grants: []gcfg{{1, []uint32{0}}, {1, []uint32{1}}}, dupOf: map[int]int{1: 0}},
+		{nkeys: 3, t: 2, grants: []gcfg{{1, []uint32{0}}, {1, []uint32{1}}, {1, []uint32{2}}}, dupOf: map[int]int{2: 0}},
+		{nkeys: 3, t: 1, grants: []gcfg{{1, []uint32{0}}, {1, []uint32{2}}}, dupOf: map[int]int{2: 0}},
+		{nkeys: 3, t: 2, grants: []gcfg{{2, []uint32{0}}, {1, []uint32{1, 2}}}, dupOf: map[int]int{1: 0}},
+	}
+	for i := 0; i < n; i++ {
+		var c cfg
+		if i < len(fixed) {
+			c = fixed[i]
+		} else {
+			c = e.randCfg()
+			if c.nkeys < 2 {
+				c.nkeys = 2
+			}
+			j := 1 + e.rng.Intn(c.nkeys-1)
+			c.dupOf = map[int]int{j: e.rng.Intn(j)}
+		}
+		b := e.planCase(c, "repeated-recipient")
+		if b.err != nil || b.env == nil {
+			continue
+		}
+		e.rep.Branches["gen.repeated-recipient"]++
+		full := 1 << c.nkeys
+		for m := 0; m < full; m++ {
+			// distinct private keys offered: slot indexes that are not duplicates
+			var offer []int
+			for k := 0; k < c.nkeys; k++ {
+				if _, dup := c.dupOf[k]; m&(1<<k) != 0 && !dup {
+					offer = append(offer, k)
+				}
+			}
+			closure := map[int]bool{}
+			for _, k := range offer {
+				closure[k] = true
+			}
+			for j, i := range c.dupOf {
+				if closure[i] {
+					closure[j] = true
+				}
+			}
+			var cl []int
+			for k := 0; k < c.nkeys; k++ {
+				if closure[k] {
+					cl = append(cl, k)
+				}
+			}
+			op := "envelope.run " + c.args() + " offer=" + natList(cl)
+			model := e.m.Query(op)
+			impl := unlockImpl(b.ctx, b.env, e.privs(e.offerKeys(offer)), b.payload)
+			avail, unlocked := specReach(c, closure)
+			want := fmt.Sprintf("locked avail=%d needed=%d unlocked=%s", avail, c.t+1, natList(unlocked))
+			if avail >= int(c.t)+1 {
+				want = fmt.Sprintf("opened payload=orig avail=%d needed=%d unlocked=%s", avail, c.t+1, natList(unlocked))
+			}
+			mon := ""
+			if impl != want {
+				mon = fmt.Sprintf("a recipient key listed in two slots (slot %v): UnlockEnvelope result differs from what the offered keys can reach: want %q got %q", c.dupOf, want, impl)
+			}
+			e.rep.Compare(op+" (repeated recipient "+fmt.Sprint(c.dupOf)+", distinct keys offered "+natList(offer)+")", model, impl, "run.repeated-recipient", "envelope.unlock:repeated-recipient", mon)
+		}
+	}
+}
 
 func (e *engine) runC16() {
 	e.rep.Rule = "envelope configurations sampled from the stated bound (1-3 keys, 1-4 grants, share counts 0-2, keypair index lists of length 0-3 with duplicates, thresholds 0-3, total-share overrides 0-5, rare out-of-range index; one in three with the EnvelopeId field set; one in eight with share counts 3-64 and thresholds up to their sum; one in 25 with an empty payload, a nil configuration or a recipient key of an unsupported type) x ALL subsets of the recipients' keys mixed with unrelated / duplicated / shuffled keys and a private key of an unsupported type; the envelope id of every sealed envelope against the configured id / hex(BLAKE3(secret ‖ context)[:16]) with the secret recovered from the shares, and its freshness across two builds; every accepted configuration is built with the real BuildEnvelope and unlocked (a) against the model's prediction from the configuration alone and (b) against the model run on the real envelope bytes with oracle primitives; CIRCL Recover/Evaluate and the scalar codec vs the model's Lagrange over Z/l on honest, duplicated, aliased, zero-id share sets; distinct = distinct op line"
@@ -1326,6 +1403,7 @@ func (e *engine) runC16() {
 	e.sharingTie(400 * e.a.Scale)
 	e.stringsTie(300 * e.a.Scale)
 	e.guardCases()
+	e.repeatedRecipients(12 * e.a.Scale)
 	n := 1200 * e.a.Scale
 	for i := 0; i < n; i++ {
 		c := e.randCfg()
@@ -1392,7 +1470,7 @@ func (e *engine) guardCases() {
 
 func (e *engine) runC17() {
 	e.rep.Rule = "every configuration of the stated bound in a seeded sample (dense on thresholds near the number of usable shares, total-share overrides above and below the sum, grants without keypair indexes, out-of-range indexes, EnvelopeId set in one of three, share counts 3-64 in one of eight, empty payload / nil configuration / recipient key of an unsupported type alone and combined with the other guards, share counts whose uint32 sum wraps in a child process) through the real BuildEnvelope: accept/reject, share placement and envelope id vs the model; every accepted one unlocked with all recipient keys; the two F7 witnesses and threshold 2^32-1 (in a child process) replayed every run; distinct = distinct op line"
-	e.rep.Require("plan.ok", "plan.ok.empty-grant", "plan.err.invalidThreshold", "plan.err.invalidKeypairIndex", "plan.err.noGrants", "plan.err.noKeypairs", "witness", "wrap",
+	e.rep.Require("run.repeated-recipient", "plan.ok", "plan.ok.empty-grant", "plan.err.invalidThreshold", "plan.err.invalidKeypairIndex", "plan.err.noGrants", "plan.err.noKeypairs", "witness", "wrap",
 		"plan.err.emptyPayload", "plan.err.encrypt", "plan.sumwrap", "gen.nil-config", "gen.empty-payload", "gen.unsupported-key", "id.auto", "id.configured", "id.fresh")
 	// witnesses of F7 (accepted-but-unopenable before the fix)
 	ws := []cfg{
@@ -1410,6 +1488,7 @@ func (e *engine) runC17() {
 	e.planCase(cfg{nkeys: 1, t: 0}, "no-grants")
 	e.planCase(cfg{nkeys: 0, t: 0, grants: []gcfg{{1, nil}}}, "no-keypairs")
 	e.guardCases()
+	e.repeatedRecipients(12 * e.a.Scale)
 	// share counts whose uint32 sum wraps (child process): 2^32-1 + 2 = 1 share, 2^31 + 2^31 = none,
 	// 2^32-1 + 1 + 5 = 5 shares, with and without an override
 	for _, c := range []cfg{
